@@ -154,6 +154,7 @@ func Run(c *core.Ctx) int {
 		}
 	}
 	errorBound(c, docs, res)
+	taxRows(c, docs, res)
 	return c.Finish("random billing documents (lines 0-8, thorough up to 40; breakdowns, line and document discounts/charges by percentage with and without base, fixed, rate x quantity; foreign-currency items with exchange rates or alternative prices; advances and due dates; tax-included prices; both rounding rules; currencies with 0/2/3 decimals; regimes ES, EL, PT, IT, FR from the hand table and, read from the registry at run time, every other registered regime, suppliers under a regime's alternative code, and documents without a regime; rows sharing a rate key whose percentage the issuer supplies under different percentages; a combo repeated with a country override by an alternative code of the document's own regime, by another regime, by a country without one); non-trivial = at least one line; distinct by encoded document", nil)
 }
 
@@ -428,6 +429,130 @@ func errorBound(c *core.Ctx, docs []*calcproto.Doc, res []Result) {
 		half := new(big.Rat).Mul(unit, big.NewRat(1, 2))
 		if worst.Cmp(half) > 0 && !large[k] {
 			c.Count("error-bound:over-half-unit", 1)
+		}
+	}
+}
+
+// taxRows holds the rows of the real tax summary (category amount and
+// surcharge; rate-group base, amount and surcharge) of every generated
+// document of the decided class (Spec/C01.lean inDocI) to the bounds of
+// Props.C01.tax_rows_decided: half a minor unit plus weight/200 units from the
+// exact rational value the driver computes (Spec/C01.lean catAmountQ,
+// catSurchargeQ, groupBaseQ).  Rows are matched by position; the whole output
+// is compared with the model elsewhere, so a different shape is only counted.
+func taxRows(c *core.Ctx, docs []*calcproto.Doc, res []Result) {
+	var reqs []string
+	var idx []int
+	for i, d := range docs {
+		r := res[i]
+		if r.GoErr != "" || r.Skipped != "" || !r.Agree || effectiveRule(d) != "precise" || len(d.Lines) == 0 {
+			continue
+		}
+		reqs = append(reqs, "taxrows "+strings.TrimPrefix(r.Req, "calc "))
+		idx = append(idx, i)
+	}
+	out, err := c.ModelProp("C01", reqs)
+	if err != nil {
+		c.TieBroken("drive:C01/taxrows", err.Error(), nil)
+		return
+	}
+	for k, i := range idx {
+		d := docs[i]
+		f := strings.Fields(out[k])
+		if len(f) < 2 || f[0] != "ok" {
+			c.TieBroken("drive:C01/taxrows", "unexpected answer "+out[k], Case{d})
+			continue
+		}
+		if f[1] != "1" {
+			continue
+		}
+		inv := d.Invoice()
+		if inv.Calculate() != nil || inv.Totals == nil || inv.Totals.Taxes == nil {
+			continue
+		}
+		sub := uint32(2)
+		if def := inv.Currency.Def(); def != nil {
+			sub = def.Subunits
+		}
+		unit := new(big.Rat).SetFrac(big.NewInt(1), new(big.Int).Exp(big.NewInt(10), big.NewInt(int64(sub)), nil))
+		rat := func(v int64, e uint32) *big.Rat {
+			return new(big.Rat).SetFrac(big.NewInt(v), new(big.Int).Exp(big.NewInt(10), big.NewInt(int64(e)), nil))
+		}
+		// bound = unit x (1/2 + w/200)
+		bound := func(w *big.Rat) *big.Rat {
+			return new(big.Rat).Mul(unit, new(big.Rat).Add(big.NewRat(1, 2), new(big.Rat).Quo(w, big.NewRat(200, 1))))
+		}
+		held := func(what string, got num.Amount, want, w *big.Rat) {
+			c.Count("tax-rows:figures", 1)
+			diff := new(big.Rat).Sub(rat(got.Value(), got.Exp()), want)
+			diff.Abs(diff)
+			if diff.Cmp(bound(w)) > 0 {
+				c.TieBroken("theorem:C01/tax_rows_decided", fmt.Sprintf("%s = %s is further from the exact value %s than the proved bound (weight %s)", what, got.String(), want.FloatString(int(sub)+6), w.FloatString(3)), Case{d})
+			}
+		}
+		cats := inv.Totals.Taxes.Categories
+		n, _ := strconv.Atoi(f[2])
+		if n != len(cats) {
+			c.Count("tax-rows:shape-differs", 1)
+			continue
+		}
+		c.Count("tax-rows:documents", 1)
+		pos := 3
+		ok := true
+		for _, ct := range cats {
+			if pos+7 > len(f) || f[pos] != "k" {
+				ok = false
+				break
+			}
+			first := f[pos+2] == "1"
+			amtQ, ok1 := new(big.Rat).SetString(f[pos+3])
+			surQ, ok2 := new(big.Rat).SetString(f[pos+4])
+			w, ok3 := new(big.Rat).SetString(f[pos+5])
+			ng, _ := strconv.Atoi(f[pos+6])
+			pos += 7
+			if !ok1 || !ok2 || !ok3 || ng != len(ct.Rates) {
+				ok = false
+				break
+			}
+			if first {
+				c.Count("tax-rows:categories", 1)
+				held("category "+ct.Code.String()+" amount", ct.Amount, amtQ, w)
+				if ct.Surcharge != nil {
+					held("category "+ct.Code.String()+" surcharge", *ct.Surcharge, surQ, w)
+				}
+			}
+			for _, rt := range ct.Rates {
+				if pos+3 > len(f) || f[pos] != "g" {
+					ok = false
+					break
+				}
+				baseQ, ok4 := new(big.Rat).SetString(f[pos+1])
+				wb, ok5 := new(big.Rat).SetString(f[pos+2])
+				pos += 3
+				if !ok4 || !ok5 {
+					ok = false
+					break
+				}
+				c.Count("tax-rows:groups", 1)
+				name := "category " + ct.Code.String() + " group " + rt.Key.String()
+				held(name+" base", rt.Base, baseQ, wb)
+				if rt.Percent != nil {
+					p := rat(rt.Percent.Value(), rt.Percent.Exp())
+					pa := new(big.Rat).Abs(p)
+					held(name+" amount", rt.Amount, new(big.Rat).Mul(baseQ, p), new(big.Rat).Add(big.NewRat(1, 1), new(big.Rat).Mul(pa, wb)))
+					if rt.Surcharge != nil {
+						sp := rat(rt.Surcharge.Percent.Value(), rt.Surcharge.Percent.Exp())
+						spa := new(big.Rat).Abs(sp)
+						held(name+" surcharge", rt.Surcharge.Amount, new(big.Rat).Mul(baseQ, sp), new(big.Rat).Add(big.NewRat(1, 1), new(big.Rat).Mul(spa, wb)))
+					}
+				}
+			}
+			if !ok {
+				break
+			}
+		}
+		if !ok {
+			c.Count("tax-rows:shape-differs", 1)
 		}
 	}
 }
